@@ -37,6 +37,8 @@ TRUSTED = ["Coq 8.16.1 kernel",
 ASSUMPTIONS = ["host is little-endian; JPEG and IMCOMP images are outside the equality claim (dimensions only)",
                "the older raster calls address an image only through a raster-image group; GR writes one for "
                "8-bit unsigned images of 1 or 3 components",
+               "record variables of one file share one record count (the netCDF-style calls know a single record "
+               "dimension per file and present every record variable with the largest count)",
                "one label and one description per object (the DFAN calls return the first one only); annotation "
                "order within one kind is not compared"]
 
@@ -76,6 +78,7 @@ def gen_sds(r):
     n = r.choice([1, 1, 2, 3])
     ds = []
     unl_used = False
+    nrec = r.choice([1, 2, 3, 5])     # the netCDF data model has one record count per file
     for _ in range(n):
         rank = r.choice([1, 1, 2, 2, 3, 4])
         dims = [r.choice([1, 2, 3, 4, 5]) for _ in range(rank)]
@@ -88,6 +91,8 @@ def gen_sds(r):
             unl = True
         if w == "nc" and not unl_used and r.random() < 0.3:
             unl = unl_used = True
+        if unl:
+            dims[0] = nrec
         ne = 1
         for d in dims:
             ne *= d
